@@ -699,7 +699,7 @@ class C15(Check):
             kw0 = thunk_args
             eps = float(np.finfo(real_t).eps)
             lo = [int(n // 2) - blk // 2 - halo for n in big]
-            for keep in range(dim):
+            def compare_once(keep):
                 # the block keeps the full extent along one axis, so that slabs / tiles along that axis on
                 # the large array meet inside the block
                 kw_big = {k: (v.copy() if isinstance(v, np.ndarray) else v) for k, v in kw0.items()}
@@ -715,7 +715,6 @@ class C15(Check):
                     inner(**kw_blk)
                     inner(**kw_big)
                 core = tuple(slice(halo, big[ax] - halo) if ax == keep else slice(halo, halo + blk) for ax in range(dim))
-                bad = None
                 for k, v in kw_big.items():
                     if not isinstance(v, np.ndarray):
                         continue
@@ -726,8 +725,17 @@ class C15(Check):
                     fin = np.isfinite(a) & np.isfinite(b)
                     tol = 256 * eps * np.maximum(1.0, np.abs(b))
                     if not np.all((np.abs(a - b) <= tol)[fin]):
-                        bad = (k, float(np.max(np.abs(a - b)[fin])))
-                        break
+                        return (k, float(np.max(np.abs(a - b)[fin])))
+                return None
+
+            for keep in range(dim):
+                bad = compare_once(keep)
+                if bad:
+                    # compiled kernels with real OpenMP threads: the scheduler is libgomp's, not the simulator's, so
+                    # a mismatch only counts when it shows on a second, independent attempt (as in the compiled
+                    # thread differential); a deterministic blocking dependence always does
+                    res.probe("blocking_probe_mismatch_first_attempt")
+                    bad = compare_once(keep)
                 if bad:
                     res.violation(
                         "blocking_dependence",
